@@ -29,7 +29,7 @@ def gen_instances(shapes, alpha, vcalpha=(0,), n=5, exhaustive=False, modes=("mi
 def slim_event(ev):
     e = {k: ev[k] for k in ("e", "c", "sel", "finev", "exc", "val", "cyc", "fin")}
     e["sent"] = [{kk: m[kk] for kk in ("src", "dst", "id", "reinj") if kk in m} for m in ev["sent"]]
-    for k in ("src", "mid", "accept"):
+    for k in ("src", "mid", "accept", "mval"):
         if k in ev:
             e[k] = ev[k]
     return e
